@@ -182,7 +182,7 @@ def _bad_op(rng, sh, k, corrupt_fn=None):
     kinds = ["dup_id", "dup_id_other", "other_version", "hdr_vn", "hdr_mixed", "malformed",
              "rename_used", "rm_unknown", "set_ref_field", "bad_tagname", "empty", "blank",
              "dup_link", "grp_clash", "grp_tag_conflict", "readd_connected", "bad_value",
-             "ref_clash", "ref_clash", "hdr_multi", "rename_malformed", "del_id"]
+             "ref_clash", "ref_clash", "hdr_multi", "rename_malformed", "del_id", "placeholder_clash"]
     kind = rng.choice(kinds)
     tags = gen_tags(rng, k)
     if kind == "ref_clash":
@@ -200,6 +200,21 @@ def _bad_op(rng, sh, k, corrupt_fn=None):
                                  "G\t%s\t%s-\t%s+\t10\t*" % (sh.fresh(rng), fresh, bad),
                                  "E\t*\t%s+\t%s-\t0\t1\t0\t1\t*" % (fresh, bad)])
             return kind, {"op": "add", "line": ln, "as": rng.choice(["str", "obj"])}
+    if kind == "placeholder_clash":
+        # an identifier is first mentioned as a (not yet defined) segment, then offered as the name of a line
+        # of another record type: the second line must be refused, the placeholder must stay what it is
+        x = sh.fresh(rng)
+        y = rng.choice(segs) if segs else sh.fresh(rng)
+        if v == "gfa1":
+            first = rng.choice(["L\t%s\t+\t%s\t-\t*" % (x, y), "C\t%s\t+\t%s\t-\t0\t*" % (y, x)])
+            second = rng.choice(["P\t%s\t%s+\t*" % (x, y), "L\t%s\t+\t%s\t+\t9M\tID:Z:%s" % (y, y, x)])
+        else:
+            first = rng.choice(["E\t*\t%s+\t%s-\t0\t1\t0\t1\t*" % (x, y), "F\t%s\tr+\t0\t1\t0\t1\t*" % x,
+                                "G\t*\t%s+\t%s-\t5\t*" % (y, x)])
+            second = rng.choice(["G\t%s\t%s+\t%s-\t5\t*" % (x, y, y), "O\t%s\t%s+" % (x, y), "U\t%s\t%s" % (x, y),
+                                 "E\t%s\t%s+\t%s-\t0\t1\t0\t1\t*" % (x, y, y)])
+        sh.note(first)
+        return kind, [{"op": "add", "line": first, "as": "str"}, {"op": "add", "line": second, "as": rng.choice(["str", "obj"])}]
     if kind == "hdr_multi":
         t = rng.choice(["zm:i:%d", "zn:Z:v%d"])
         return kind, [{"op": "add", "line": "H\t" + t % 1, "as": "str"}, {"op": "add", "line": "H\t" + t % 2, "as": "str"},
